@@ -283,3 +283,119 @@ func ruleS13(c *an.Ctx) {
 	}
 	c.Floor("S13", "ordering comparisons of floats in FloatExp.equal", n, 1)
 }
+
+// M16 (C13): the file-name gate rejects the names that denote the directory itself and its parent.
+// M9 lets a run-time map key become a path component under outs/ only behind
+// IsLegalUnixFilename(key) == nil.  The gate has to refuse "", "." and "..": outs/<map>/. is the
+// map's own directory, and the files of that entry then collide with the directories of its
+// siblings.  A library predicate that "covers" the reserved names (filepath.IsLocal refuses ".." but
+// accepts ".") is not the same test.
+// Rule: IsLegalUnixFilename (with its private helpers) compares a string with each of the constants
+// "", "." and ".." by equality (len(s) == 0 counts for ""; a call of filepath.IsLocal counts for ""
+// and "..", which it refuses).
+func ruleM16(c *an.Ctx) {
+	fn := c.P.Func(pkgSyntax, "IsLegalUnixFilename")
+	if fn == nil {
+		c.Info("M16", "anchor(IsLegalUnixFilename)", 0, "not found: not decided")
+		return
+	}
+	seen := map[string]bool{}
+	emptyByLen := false
+	for _, f := range familyOf(c.P, fn, 2) {
+		an.Instrs(f, func(in ssa.Instruction) {
+			if staticCalleeIs(in, "path/filepath", "IsLocal") != nil {
+				// filepath.IsLocal refuses "" and ".." (not "."): those two count as compared.
+				seen[""], seen[".."] = true, true
+			}
+			b, ok := in.(*ssa.BinOp)
+			if !ok || (b.Op != token.EQL && b.Op != token.NEQ) {
+				return
+			}
+			for _, v := range []ssa.Value{b.X, b.Y} {
+				if k, isK := an.ConstVal(v); isK && k.Kind() == constant.String {
+					seen[constant.StringVal(k)] = true
+				}
+				if args, isLen := an.IsBuiltinCall(v, "len"); isLen && len(args) == 1 {
+					if bt, isB := args[0].Type().Underlying().(*types.Basic); isB && bt.Info()&types.IsString != 0 {
+						emptyByLen = true
+					}
+				}
+			}
+		})
+	}
+	for _, name := range []string{"", ".", ".."} {
+		ok := seen[name] || (name == "" && emptyByLen)
+		c.Check("M16", fmt.Sprintf("reserved-name-%q-refused@IsLegalUnixFilename", name), fn.Pos(), ok,
+			fmt.Sprintf("IsLegalUnixFilename never compares the name with %q: a run-time map key of that value passes the gate in front of the path join in post-processing; outs/<map>/%s is not a directory of its own, the entry's files land in a sibling's place and that sibling's files are never materialised", name, name))
+	}
+}
+
+// X15 (C03): a source that may be an array or a map is empty when it has no keys and no positive
+// length.  MapCallSource.ArrayLength answers -1 for a map source and Keys is empty for an array
+// source, so the two emptiness predicates of the compiler (SplitExp.IsEmpty, MergeExp's) test
+// `len(Keys()) == 0 && ArrayLength() <= 0`.  Writing the second half as `== 0` makes every empty map
+// whose emptiness is known through its source (a `{}` passed as a pipeline argument) non-empty: the
+// call is not pruned as always disabled and reaches the runtime with zero forks.
+// Rule: wherever a comparison of an ArrayLength() result with the constant 0 is guarded by
+// `len(x.Keys()) == 0`, it is an order comparison, not == / !=.
+func ruleX15(c *an.Ctx) {
+	isCallNamed := func(v ssa.Value, name string) bool {
+		cl, ok := v.(*ssa.Call)
+		if !ok {
+			return false
+		}
+		if cl.Call.IsInvoke() {
+			return cl.Call.Method.Name() == name
+		}
+		h := cl.Call.StaticCallee()
+		return h != nil && h.Name() == name && h.Signature.Recv() != nil
+	}
+	isZero := func(v ssa.Value) bool {
+		k, ok := an.ConstVal(v)
+		return ok && k.Kind() == constant.Int && constant.Sign(k) == 0
+	}
+	keysEmpty := func(r an.Rel) bool {
+		if r.Op != token.EQL {
+			return false
+		}
+		for _, pair := range [][2]ssa.Value{{r.X, r.Y}, {r.Y, r.X}} {
+			if !isZero(pair[1]) {
+				continue
+			}
+			if args, isLen := an.IsBuiltinCall(pair[0], "len"); isLen && len(args) == 1 && isCallNamed(args[0], "Keys") {
+				return true
+			}
+		}
+		return false
+	}
+	n := 0
+	perFn := map[*ssa.Function]int{}
+	for _, pk := range []string{pkgSyntax, pkgCore} {
+		for _, fn := range c.P.FuncsOf(pk) {
+			for _, f := range an.WithAnon(fn) {
+				an.Instrs(f, func(in ssa.Instruction) {
+					b, ok := in.(*ssa.BinOp)
+					if !ok {
+						return
+					}
+					switch b.Op {
+					case token.EQL, token.NEQ, token.LSS, token.LEQ, token.GTR, token.GEQ:
+					default:
+						return
+					}
+					if !((isCallNamed(b.X, "ArrayLength") && isZero(b.Y)) || (isCallNamed(b.Y, "ArrayLength") && isZero(b.X))) {
+						return
+					}
+					if g, _ := an.GuardedBy(in, keysEmpty); !g {
+						return
+					}
+					n++
+					perFn[f]++
+					c.Check("X15", fmt.Sprintf("array-length-of-a-keyless-source-compared-by-order@%s#%d", an.FnName(f), perFn[f]), b.Pos(), b.Op != token.EQL && b.Op != token.NEQ,
+						"behind `len(Keys()) == 0` the source may be a map, whose ArrayLength() is -1: comparing it with 0 by equality calls every empty map non-empty, the map call over it is not pruned as always disabled and reaches the runtime with no forks")
+				})
+			}
+		}
+	}
+	c.Floor("X15", "ArrayLength()-against-0 comparisons guarded by len(Keys()) == 0", n, 1)
+}
